@@ -196,13 +196,13 @@ func (c *EvalCtx) eval(e Expr) EV {
 
 func (c *EvalCtx) ident(name string) EV {
 	fr := c.fr
-	if v, ok := c.vars[name]; ok {
+	if v, ok := c.vars[name]; ok && name != "$result" {
 		if v.Cell != nil {
 			return EV{T: fr.load(v.Cell), Ty: v.Ty}
 		}
 		return v
 	}
-	if name == "result" {
+	if name == "result" || name == "$result" {
 		if len(c.results) == 1 {
 			return c.results[0]
 		}
